@@ -1,7 +1,7 @@
-"""C18, sessions (spec/CliSession.tla): several invocations of `penne emit --out-dir outd` that share one output directory.
+"""C18, sessions (spec/CliSession.tla): several invocations of `penne emit|build --out-dir outd` that share one output directory.
 
-TLC enumerates every behaviour of CliSession.tla up to MaxSteps steps that ends with an emission (Emit with the file list and
-the target, Edit of ONE source text, Plant of a foreign file at the path of an IR file, Remove) together with the abstract
+TLC enumerates every behaviour of CliSession.tla up to MaxSteps steps that ends with an emission (Emit with the subcommand, the
+file list and the target; a build also feeds the recording fake backend, whose standard input is compared the same way; Edit of ONE source text, Plant of a foreign file at the path of an IR file, Remove) together with the abstract
 content R prescribes for every IR file after every emission.  Each behaviour is replayed in a directory of its own against the
 real binary; after every emission the content of outd/<m>.pn.ll is compared with the content the same binary writes for the
 same sources and target into an EMPTY directory (the table `fresh`), files R says are foreign / absent must still be so.
@@ -19,22 +19,37 @@ from .common import log
 SRC = {
     ("a", 1): 'import "b.pn";\n\nfn main() -> u8\n{\n\tvar r: u8 = LIMIT;\n\treturn: r\n}\n',
     ("a", 2): 'import "b.pn";\n\nfn main() -> u8\n{\n\tvar r: u8 = LIMIT + 1;\n\treturn: r\n}\n',
-    ("b", 1): "pub const LIMIT: u8 = 17;\n\npub fn b_id(x: u8) -> u8\n{\n\treturn: x\n}\n",
-    ("b", 2): "pub const LIMIT: u8 = 42;\n\npub fn b_id(x: u8) -> u8\n{\n\treturn: x\n}\n",
+    ("b", 1): "pub const LIMIT: u8 = 17;\n\npub fn b_id(x: u8) -> u8\n{\n\treturn: x + LIMIT\n}\n",
+    ("b", 2): "pub const LIMIT: u8 = 42;\n\npub fn b_id(x: u8) -> u8\n{\n\treturn: x + LIMIT\n}\n",
 }
 FOREIGN = "; not written by penne\n"
 MODS = ("a", "b")
+# (tier -> configurations: emissions only to the deeper bound, emissions and builds to the smaller one)
+CFGS = {"quick": ["MC_CliSession_quick.cfg", "MC_CliSession_quick_build.cfg"],
+        "thorough": ["MC_CliSession_thorough.cfg", "MC_CliSession_thorough_build.cfg"]}
 
 
-def emit(penne, d, listed, wasm):
-    args = [penne, "emit", "--silent"] + (["--wasm"] if wasm else []) + ["--out-dir", "outd"] + ["%s.pn" % m for m in sorted(listed)]
-    env = {k: v for k, v in os.environ.items() if k not in ("RUST_BACKTRACE", "NO_COLOR")}
+def emit(penne, d, listed, wasm, sub="emit", bindir=None):
+    """one invocation; returns (status, tail of the output, what the backend was fed with (build only))"""
+    args = [penne, sub, "--silent"] + (["--wasm"] if wasm else []) + ["--out-dir", "outd"] + ["%s.pn" % m for m in sorted(listed)]
+    env = {k: v for k, v in os.environ.items() if k not in ("RUST_BACKTRACE", "NO_COLOR", "PENNE_BACKEND", "PENNE_LLI")}
     env["RUST_BACKTRACE"] = "0"
+    log_path = os.path.join(d, "backend.log")
+    if sub == "build":
+        # the default backend of `build` is `clang`: the recording fake one of checks/c18.py, first on PATH
+        env["PATH"] = bindir + ":" + env.get("PATH", "")
+        env["FAKE_LOG"] = log_path
+        for p_ in (log_path, log_path + ".stdin"):
+            if os.path.exists(p_):
+                os.remove(p_)
     try:
         p = subprocess.run(args, cwd=d, env=env, stdout=subprocess.PIPE, stderr=subprocess.PIPE, timeout=120)
-        return p.returncode, (p.stdout + p.stderr).decode("utf-8", "replace")[-600:]
     except subprocess.TimeoutExpired:
-        return "timeout", ""
+        return "timeout", "", None
+    fed = None
+    if sub == "build" and os.path.exists(log_path + ".stdin"):
+        fed = open(log_path + ".stdin", errors="replace").read()
+    return p.returncode, (p.stdout + p.stderr).decode("utf-8", "replace")[-600:], fed
 
 
 def read_ir(d, m):
@@ -47,18 +62,31 @@ def write_sources(d, ver):
         open(os.path.join(d, "%s.pn" % m), "w").write(SRC[(m, ver[m])])
 
 
-def fresh_table(penne, root):
-    """(m, va, vb, wasm) -> the IR the binary writes into an empty directory"""
+def fresh_table(penne, root, bindir):
+    """(m, va, vb, wasm) -> the IR the binary writes into an empty directory;
+    ("linked", va or 0, vb, wasm) -> what the backend of a build in an empty directory is fed with"""
     table = {}
     n = 0
     for va in (1, 2):
         for vb in (1, 2):
             for wasm in (False, True):
+                for listed in (MODS, ("b",)):
+                    if listed == ("b",) and va == 2:
+                        continue
+                    d = os.path.join(root, "freshb%d" % n)
+                    n += 1
+                    os.makedirs(d)
+                    write_sources(d, {"a": va, "b": vb})
+                    rc, tail, fed = emit(penne, d, listed, wasm, "build", bindir)
+                    if rc != 0 or not fed:
+                        raise common.ToolError("CliSession: the reference build of valid sources fails or feeds nothing (status %s): %s" % (rc, tail))
+                    table[("linked", va if "a" in listed else 0, vb, wasm)] = fed
+                    shutil.rmtree(d, ignore_errors=True)
                 d = os.path.join(root, "fresh%d" % n)
                 n += 1
                 os.makedirs(d)
                 write_sources(d, {"a": va, "b": vb})
-                rc, tail = emit(penne, d, MODS, wasm)
+                rc, tail, _ = emit(penne, d, MODS, wasm)
                 if rc != 0:
                     raise common.ToolError("CliSession: the reference emission of valid sources fails (status %s): %s" % (rc, tail))
                 for m in MODS:
@@ -68,7 +96,7 @@ def fresh_table(penne, root):
                     table[(m, va if m == "a" else 0, vb, wasm)] = ir
                 shutil.rmtree(d, ignore_errors=True)
     # the abstraction must be faithful: different abstract contents are different texts (else a stale file cannot be told)
-    for m in MODS:
+    for m in MODS + ("linked",):
         texts = {}
         for k, v in table.items():
             if k[0] == m:
@@ -79,8 +107,8 @@ def fresh_table(penne, root):
 
 
 def step_name(s):
-    if s["op"] == "emit":
-        return "emit(%s%s)" % ("".join(sorted(s["listed"])), ",wasm" if s["wasm"] else "")
+    if s["op"] in ("emit", "build"):
+        return "%s(%s%s)" % (s["op"], "".join(sorted(s["listed"])), ",wasm" if s["wasm"] else "")
     return "%s(%s)" % (s["op"], s["m"])
 
 
@@ -95,7 +123,72 @@ def describe(table, m, text):
     return "an unknown text"
 
 
-def replay_case(penne, root, idx, case, table):
+def classify(table, m, text):
+    """the abstract content of CliSession.tla for a text found in the directory / fed to the backend"""
+    if text is None:
+        return {"kind": "none"}
+    if text == FOREIGN:
+        return {"kind": "foreign"}
+    for k, v in table.items():
+        if k[0] == m and v == text:
+            if m == "linked":
+                return {"kind": "linked", "a": k[1], "b": k[2], "wasm": k[3]}
+            return {"kind": "ir", "m": m, "a": k[1], "b": k[2], "wasm": k[3]}
+    return {"kind": "unknown"}
+
+
+def record_sessions(penne, root, table, bindir, n_sessions, n_steps, seed, path, corrupt=False):
+    """impl -> spec: random sessions on the real binary, one recorded line per step (validated by Trace_CliSession.tla)"""
+    import random
+    rnd = random.Random(seed)
+    lines = []
+    for k in range(n_sessions):
+        d = os.path.join(root, "r%d" % k)
+        shutil.rmtree(d, ignore_errors=True)
+        os.makedirs(d)
+        ver = {"a": 1, "b": 1}
+        write_sources(d, ver)
+        lines.append({"op": "reset", "session": k})
+        for _ in range(n_steps):
+            present = [m for m in MODS if read_ir(d, m) is not None]
+            op = rnd.choice(["emit", "emit", "build", "edit", "edit", "plant", "remove"])
+            if op == "remove" and not present:
+                op = "emit"
+            rec = {"op": op}
+            if op in ("emit", "build"):
+                listed = rnd.choice([["a", "b"], ["a", "b"], ["b"]])
+                wasm = rnd.random() < 0.3
+                rc, _, fed = emit(penne, d, listed, wasm, op, bindir)
+                rec.update(listed=listed, wasm=wasm, status=rc if isinstance(rc, int) else -1)
+                if op == "build":
+                    rec["fed"] = classify(table, "linked", fed)
+            elif op == "edit":
+                m = rnd.choice(MODS)
+                ver[m] = 3 - ver[m]
+                open(os.path.join(d, "%s.pn" % m), "w").write(SRC[(m, ver[m])])
+                rec.update(m=m, v=ver[m])
+            elif op == "plant":
+                m = rnd.choice(MODS)
+                os.makedirs(os.path.join(d, "outd"), exist_ok=True)
+                open(os.path.join(d, "outd", "%s.pn.ll" % m), "w").write(FOREIGN)
+                rec["m"] = m
+            else:
+                m = rnd.choice(present)
+                os.remove(os.path.join(d, "outd", "%s.pn.ll" % m))
+                rec["m"] = m
+            rec["fs"] = {m: classify(table, m, read_ir(d, m)) for m in MODS}
+            lines.append(rec)
+        shutil.rmtree(d, ignore_errors=True)
+    if corrupt:
+        # self-test: one recorded file content of one emission is replaced by the content of the OTHER version of b
+        i = next(j for j in range(len(lines) - 1, 0, -1) if lines[j]["op"] in ("emit", "build") and lines[j]["fs"]["b"]["kind"] == "ir")
+        lines[i] = json.loads(json.dumps(lines[i]))
+        lines[i]["fs"]["b"]["b"] = 3 - lines[i]["fs"]["b"]["b"]
+    common.write_ndjson(path, lines)
+    return lines
+
+
+def replay_case(penne, root, idx, case, table, bindir):
     d = os.path.join(root, "s%d" % idx)
     shutil.rmtree(d, ignore_errors=True)
     os.makedirs(d)
@@ -114,11 +207,18 @@ def replay_case(penne, root, idx, case, table):
         elif s["op"] == "remove":
             os.remove(os.path.join(d, "outd", "%s.pn.ll" % s["m"]))
         else:
-            rc, tail = emit(penne, d, s["listed"], s["wasm"])
+            rc, tail, fed = emit(penne, d, s["listed"], s["wasm"], s["op"], bindir)
             if rc != 0:
-                problems.append(("exit-status", " ".join(done), "emit of valid sources ends with status %s: %s" % (rc, tail)))
+                problems.append(("exit-status", " ".join(done), "%s of valid sources ends with status %s: %s" % (s["op"], rc, tail)))
                 break
             bad = False
+            if s["op"] == "build":
+                want = s["fed"]
+                exp = table[("linked", want["a"], want["b"], want["wasm"])]
+                if fed != exp:
+                    bad = True
+                    problems.append(("backend-input", "%s :: backend" % " ".join(done),
+                                     "the backend should be fed with %s and is fed with %s" % (describe(table, "linked", exp), describe(table, "linked", fed))))
             for m in MODS:
                 want = s["fs"][m]
                 got = read_ir(d, m)
@@ -138,22 +238,36 @@ def replay_case(penne, root, idx, case, table):
     return problems
 
 
-def run_part(penne, root, tier, findings, selftest):
-    r = common.tlc("CliSession", "MC_CliSession_%s.cfg" % tier, workers=4, timeout=900, heap="4g",
-                   tag="cli-session-%d" % os.getpid(), keep_output=False)
-    if not r.ok:
-        raise common.ToolError("CliSession.tla: invariant %s violated (the rule does not make an emission a function of sources and target)" % r.violated)
-    cases = sorted(r.cases, key=lambda c: json.dumps(c, sort_keys=True))
+def run_part(penne, root, tier, findings, selftest, seed=1):
+    cases, seen, states, generated, wall = [], set(), 0, 0, 0.0
+    for cfg in CFGS[tier]:
+        r = common.tlc("CliSession", cfg, workers=4, timeout=900, heap="4g", tag="cli-session-%s-%d" % (cfg.replace(".cfg", ""), os.getpid()),
+                       keep_output=False)
+        if not r.ok:
+            raise common.ToolError("CliSession.tla/%s: invariant %s violated (the rule does not make an emission a function of sources and target)" % (cfg, r.violated))
+        states += r.distinct
+        generated += r.generated
+        wall += r.wall
+        for c in r.cases:
+            k = json.dumps(c, sort_keys=True)
+            if k not in seen:
+                seen.add(k)
+                cases.append(c)
+    cases.sort(key=lambda c: json.dumps(c, sort_keys=True))
     if len(cases) < 100:
         raise common.ToolError("CliSession emitted %d behaviours (vacuous)" % len(cases))
     sroot = os.path.join(root, "sessions")
     os.makedirs(sroot, exist_ok=True)
-    table = fresh_table(penne, sroot)
+    bindir = os.path.join(root, "bin")
+    if not os.path.exists(os.path.join(bindir, "clang")):
+        raise common.ToolError("CliSession: the fake backends of checks/c18.py are missing (%s)" % bindir)
+    table = fresh_table(penne, sroot, bindir)
     with ThreadPoolExecutor(max_workers=int(pc.THREADS)) as ex:
-        results = list(ex.map(lambda ic: replay_case(penne, sroot, ic[0], ic[1], table), enumerate(cases)))
+        results = list(ex.map(lambda ic: replay_case(penne, sroot, ic[0], ic[1], table, bindir), enumerate(cases)))
     agree = 0
-    emissions = sum(1 for c in cases for s in c["steps"] if s["op"] == "emit")
-    reuse = sum(1 for c in cases if sum(1 for s in c["steps"] if s["op"] == "emit") >= 2 or any(s["op"] == "plant" for s in c["steps"]))
+    emissions = sum(1 for c in cases for s in c["steps"] if s["op"] in ("emit", "build"))
+    builds = sum(1 for c in cases for s in c["steps"] if s["op"] == "build")
+    reuse = sum(1 for c in cases if sum(1 for s in c["steps"] if s["op"] in ("emit", "build")) >= 2 or any(s["op"] == "plant" for s in c["steps"]))
     for case, problems in zip(cases, results):
         if not problems:
             agree += 1
@@ -161,17 +275,46 @@ def run_part(penne, root, tier, findings, selftest):
             findings.add(("session", clause), "cli-session", "%s | %s" % (clause, key),
                          {"case": case, "message": msg, "sources": {"%s.pn v%d" % k: v for k, v in SRC.items()},
                           "how": "the steps in order, in one directory: edit = rewrite that source only, plant = write a foreign outd/<m>.pn.ll, "
-                                 "emit = penne emit --silent [--wasm] --out-dir outd <listed>.pn; compare with an emission into an empty directory"})
+                                 "emit / build = penne emit|build --silent [--wasm] --out-dir outd <listed>.pn (build with the recording fake `clang` first on PATH); "
+                                 "compare every IR file, and what the backend reads from its standard input, with the same invocation in an empty directory"})
+    # impl -> spec: random sessions of 25 steps, recorded and validated by TLC against the same specification
+    n_sessions = 40 if tier == "quick" else 400
+    tpath = os.path.join(common.WORK, "cli-session-trace-%d.ndjson" % os.getpid())
+    lines = record_sessions(penne, sroot, table, bindir, n_sessions, 25, seed, tpath)
+    tres = common.tlc_traces("Trace_CliSession", "Trace_CliSession.cfg", [tpath])[0]
+    if tres["total"] != len(lines):
+        raise common.ToolError("Trace_CliSession: TLC read %s lines of %d (%s)" % (tres["total"], len(lines), tres.get("output")))
+    if not tres["accepted"]:
+        j = tres["matched"]          # index of the first line that is no step of the specification
+        start = max(i for i in range(j + 1) if lines[i]["op"] == "reset")
+        steps = [step_name(x) for x in lines[start + 1:j + 1]]
+        findings.add(("session", "trace"), "cli-session", "trace | %s" % " ".join(steps),
+                     {"rejected_line": lines[j], "session": lines[start:j + 1],
+                      "message": "the recorded step is no step of CliSession.tla: after it the directory (or the input of the backend) does not hold "
+                                 "what the rule prescribes; the lines after it were not examined"})
+    os.remove(tpath)
+    log("[trace] %d random sessions of 25 steps recorded from the real binary (%d lines): %s by TLC against CliSession.tla (%d lines matched)" %
+        (n_sessions, len(lines), "accepted" if tres["accepted"] else "REJECTED", tres["matched"]))
     st = {}
     if selftest:
+        cpath = os.path.join(common.WORK, "cli-session-trace-corrupt-%d.ndjson" % os.getpid())
+        record_sessions(penne, sroot, table, bindir, 3, 12, seed, cpath, corrupt=True)
+        st["corrupted_recording_rejected"] = not common.tlc_traces("Trace_CliSession", "Trace_CliSession.cfg", [cpath])[0]["accepted"]
+        os.remove(cpath)
         # a stale expectation must be noticed: swap the expected version of `a` after the last emission of a behaviour that edited b
         probe = next(c for c in cases if any(s["op"] == "edit" and s["m"] == "b" for s in c["steps"])
                      and c["steps"][-1]["fs"]["a"]["kind"] == "ir")
         bad = json.loads(json.dumps(probe))
         bad["steps"][-1]["fs"]["a"]["b"] = 3 - bad["steps"][-1]["fs"]["a"]["b"]
-        st["stale_expectation_detected"] = any(cl == "out-dir-content" for cl, _, _ in replay_case(penne, sroot, 999999, bad, table))
+        st["stale_expectation_detected"] = any(cl == "out-dir-content" for cl, _, _ in replay_case(penne, sroot, 999999, bad, table, bindir))
+        # ... and so must a stale backend input: the version of `b` inside what the last build should feed
+        probe2 = next(c for c in cases if c["steps"][-1]["op"] == "build" and any(s["op"] == "edit" for s in c["steps"]))
+        bad2 = json.loads(json.dumps(probe2))
+        bad2["steps"][-1]["fed"]["b"] = 3 - bad2["steps"][-1]["fed"]["b"]
+        st["stale_backend_input_detected"] = any(cl == "backend-input" for cl, _, _ in replay_case(penne, sroot, 999998, bad2, table, bindir))
     shutil.rmtree(sroot, ignore_errors=True)
-    log("[tlc] CliSession/MC_CliSession_%s.cfg: %d states, %d behaviours ending with an emission (%d emissions, %d behaviours reuse a "
-        "directory that already holds files), %.1fs; [replay] %d agree with the rule" % (tier, r.distinct, len(cases), emissions, reuse, r.wall, agree))
-    return {"states": r.distinct, "transitions": r.generated, "behaviours": len(cases), "emissions": emissions,
-            "behaviours_reusing_a_directory": reuse, "agree": agree, "selftests": st}
+    log("[tlc] CliSession (%s): %d states, %d behaviours ending with an emission (%d emissions, %d of them builds, %d behaviours reuse a "
+        "directory that already holds files), %.1fs; [replay] %d agree with the rule" % (", ".join(CFGS[tier]), states, len(cases), emissions, builds, reuse, wall, agree))
+    return {"states": states, "transitions": generated, "behaviours": len(cases), "emissions": emissions, "builds": builds,
+            "behaviours_reusing_a_directory": reuse, "agree": agree, "selftests": st,
+            "recorded_sessions": n_sessions, "recorded_steps": len(lines), "recorded_steps_matched": tres["matched"], "trace_accepted": tres["accepted"]}
